@@ -56,7 +56,7 @@ ValueForms == {
 
 Tags == {TagHtml("div"), TagHtml("svg"), TagHtml("input"), TagCustom("i-foo"), TagCustom("x-foo"),
          TagComp("Foo", TRUE, Opq("vFoo")), TagComp("Bar", FALSE, Undef),
-         TagMember("o2", "Comp", Opq("vo2Comp")), TagFragmentName, TagKeepAlive}
+         TagMember("o2", "Comp", Opq("vo2Comp")), TagMember("o2", "div", Opq("vo2div")), TagFragmentName, TagKeepAlive}
 
 BoolOpts(mp, ton, opt, pats) ==
   [DefaultOpts EXCEPT !.mergeProps = mp, !.transformOn = ton, !.optimize = opt, !.patterns = pats]
